@@ -589,6 +589,57 @@ pub fn prog_timer_exit(iter: u32, tcora: u8, tcr: u8, pad: u32) -> Program {
     finish("timer-exit", a, "")
 }
 
+/// a routine copied into on-chip RAM and run there with the timer on clock/8: register moves fetched from on-chip
+/// RAM are charged 2 x 3 = 6 states, less than one timer period, so the peripherals must be given every
+/// instruction's charge when it is made (the per-iteration TCNT observation is explained by one phase only then)
+pub fn prog_ram_timer(n: u32) -> Program {
+    const RAMCODE: u32 = 0xffc000;
+    let build = |exit_addr: u32| -> (Asm, usize) {
+        let mut r = Asm::new(RAMCODE);
+        r.mov_b_imm(8, 0xf0);
+        r.mov_b_store_abs24(8, 0xffff84); // TCORA
+        r.mov_b_imm(8, 0x01);
+        r.mov_b_store_abs24(8, 0xffff80); // TCR: clock/8, no interrupts
+        for i in 0..n {
+            r.mov_b_rr(9, 9); // 6 states each
+            if i % 5 == 4 {
+                r.adds(1, 4); // also 6 states
+            }
+        }
+        r.mov_b_imm(8, 0);
+        r.mov_b_store_abs24(8, 0xffff80); // stop
+        r.jmp_abs_addr(exit_addr);
+        let (_, bytes, _) = r.finish();
+        let mut a = Asm::new(BASE);
+        a.mov_l_label(1, "routine");
+        a.mov_l_imm(2, RAMCODE);
+        a.mov_w_imm(3, bytes.len() as u16);
+        a.label("copy");
+        a.mov_b_load_ind(1, 8);
+        a.mov_b_store_ind(8, 2);
+        a.adds(1, 1);
+        a.adds(1, 2);
+        a.dec_w1(3);
+        a.bcc8(6, "copy");
+        a.jmp_abs_addr(RAMCODE);
+        a.label("exit");
+        a.bcc8(0, "exit");
+        a.label("routine");
+        let mut i = 0;
+        while i < bytes.len() {
+            let hi = bytes[i] as u16;
+            let lo = if i + 1 < bytes.len() { bytes[i + 1] as u16 } else { 0 };
+            a.w((hi << 8) | lo);
+            i += 2;
+        }
+        (a, bytes.len())
+    };
+    let (a0, _) = build(0);
+    let exit_addr = a0.addr("exit");
+    let (a, _) = build(exit_addr);
+    finish("ram-timer", a, "")
+}
+
 /// hostile programs for C15: slow bus + long instruction (charge above 85 states), stack running into a hole,
 /// odd jump targets, jumps above the address space, fetch at the end of a region
 pub fn prog_hostile(kind: u32) -> Program {
@@ -700,6 +751,7 @@ pub fn run_run_program(args: &Args) -> Result<()> {
         (prog_fail(3), 1000, false),
         (prog_fail(4), 1000, false),
         (prog_count(120, 0), 100_000, false),
+        (prog_ram_timer(40), 100_000, false),                // 6-state instructions from on-chip RAM under a running timer
         (prog_timer(150, 200, 0x49), 200_000, false),      // CMIEA, clear on A, clock/8: a match every 1600 states
         (prog_timer(120, 40, 0x6a), 200_000, false),       // CMIEA+OVIE, clear on A, clock/64
         (prog_count(8_800, 1), 200_000, true),             // just past the first sync threshold
